@@ -319,8 +319,18 @@ def passes():
     ]
 
 
-def run_program(ctx, rnd, mode, typed, info):
-    nodes, leaves, nested = gen_program(rnd, mode)
+def long_chain(n):
+    """scale boundary: one chain of n ordinary stages (what a generated analysis script can produce)"""
+    nodes = [{"parent": None, "kind": "Event", "op": None, "text": None, "depth": 0}]
+    nodes.append({"parent": 0, "kind": "num", "op": "Select", "text": "lambda e: e.met()", "depth": 1})
+    for i in range(n):
+        op, text = ("Select", f"lambda x: x + {i % 3}") if i % 4 else ("Where", f"lambda v: v > -{i + 1}")
+        nodes.append({"parent": len(nodes) - 1, "kind": "num", "op": op, "text": text, "depth": len(nodes)})
+    return nodes, [(len(nodes) - 1, None)], False
+
+
+def run_program(ctx, rnd, mode, typed, info, program=None):
+    nodes, leaves, nested = program or gen_program(rnd, mode)
     if not leaves:
         ctx.count("trivial:empty-program")
         return
@@ -477,6 +487,10 @@ def shard_main(ctx):
 
     if "/verif" not in sys.path:
         sys.path.insert(0, "/verif")
+    if ctx.shard in (0, 1, 3):
+        for n in (95, 110, 125):
+            ctx.count("long-chain-programs")
+            run_program(ctx, random.Random(n), "string", ctx.shard == 0, {"program": (ctx.seed, ctx.shard, -n), "long_chain": n}, program=long_chain(n))
     for i in range(N_PROGRAMS[ctx.tier]):
         if ctx.out_of_time():
             ctx.count("stopped-by-time-budget")
@@ -495,5 +509,6 @@ def shard_main(ctx):
 def replay(ctx, witness):
     seed, shard, i = witness["info"]["program"]
     rnd = random.Random((seed * 1000 + shard) * 100003 + i)
-    run_program(ctx, rnd, witness["mode"], witness["typed"], witness["info"])
+    n = witness["info"].get("long_chain")
+    run_program(ctx, random.Random(n) if n else rnd, witness["mode"], witness["typed"], witness["info"], program=long_chain(n) if n else None)
     modgen.cleanup()
